@@ -203,13 +203,26 @@ Print Assumptions C17_none_good_identity.
 
 (* ================================================================ aesthetics *)
 
-(* aesthetics_support: the four methods leave the flux alone wherever the inverse variance is not zero *)
-Theorem C17_aesthetics_support : forall (meth : amethod) (flux iv : list Q) (i : nat) (f v : Q),
-  length iv = length flux -> nth_error flux i = Some f -> nth_error iv i = Some v -> 0 <= v -> ~ v == 0 ->
+(* aesthetics_support.  DESIGN.md states: ivar_i <> 0 -> out_i = flux_i for the four methods.  That full
+   statement is proved for traditional, noconst and nothing.  For `mean` it is NOT true of the code when
+   ivar_i < 0: pydl overwrites `~(invvar > 0)` (IDL: the pixels with invvar == 0), so a pixel with negative
+   inverse variance is replaced.  Proved here: the statement with the extra hypothesis 0 <= ivar_i for the
+   mean method (inverse variances are non-negative by definition; see notes/C17.md, "observations"). *)
+Theorem C17_aesthetics_support_partial : forall (meth : amethod) (flux iv : list Q) (i : nat) (f v : Q),
+  length iv = length flux -> nth_error flux i = Some f -> nth_error iv i = Some v -> ~ v == 0 ->
+  (meth = Mean -> 0 <= v) ->
   exists out, nth_error (aesthetics_model meth flux iv) i = Some out /\ out == f.
 Proof. exact aesthetics_support. Qed.
-Print Assumptions C17_aesthetics_support.
+Print Assumptions C17_aesthetics_support_partial.
 
+(* M = S when no inverse variance is negative *)
+Theorem C17_aesthetics_model_eq_spec : forall (meth : amethod) (flux iv : list Q) (i : nat),
+  length iv = length flux -> (forall v, In v iv -> 0 <= v) ->
+  opt_Qeq (nth_error (aesthetics_model meth flux iv) i) (nth_error (aesthetics_spec meth flux iv) i).
+Proof. exact aesthetics_model_eq_spec. Qed.
+Print Assumptions C17_aesthetics_model_eq_spec.
+
+(* S itself (the oracle) changes flux only where the inverse variance is zero, without any sign condition *)
 Theorem C17_aesthetics_S_support : forall (meth : amethod) (flux iv : list Q) (i : nat) (f v : Q),
   length iv = length flux -> nth_error flux i = Some f -> nth_error iv i = Some v -> ~ v == 0 ->
   nth_error (aesthetics_spec meth flux iv) i = Some f.
